@@ -63,4 +63,269 @@ theorem freeAll_spec (ps : List (Option Tok)) : ∀ (w : World), Sub (ptrs ps) w
           simp only [this] at e' hu ⊢
           simp only [Bool.false_eq_true, if_false] at e' hu ⊢
           omega
+
+/-- outcome of one allocator call -/
+theorem alloc_cases (w : World) (t : Tok) :
+    (w.alloc t = (none, { w with oracle := w.oracle.tail, nalloc := w.nalloc + 1 })) ∨
+    (w.alloc t = (some t, { w with oracle := w.oracle.tail, nalloc := w.nalloc + 1, live := t :: w.live })) := by
+  unfold World.alloc
+  cases w.oracle.headD true <;> simp
+
+theorem free_head (w : World) (t : Tok) (l : List Tok) (h : w.live = t :: l) :
+    w.free (some t) = { w with live := l } := by
+  simp [World.free, h]
+
+theorem makeTempFile_spec (cfg : TempCfg) (hs : cfg.Sound = true) (sys : TempSys) (w : World) :
+    let r := makeTempFile cfg sys w
+    r.2.2.bad = w.bad ∧ r.2.2.closed = w.closed ∧
+    ((r.1 = true ∧ r.2.1 = some ⟨.tempName, 0⟩ ∧ r.2.2.live = ⟨.tempName, 0⟩ :: w.live ∧
+        r.2.2.tempFiles = w.tempFiles + 1 ∧ r.2.2.openFds = w.openFds + 1) ∨
+     (r.1 = false ∧ r.2.1 = none ∧ r.2.2.live = w.live ∧ r.2.2.tempFiles = w.tempFiles ∧ r.2.2.openFds = w.openFds)) := by
+  simp only [TempCfg.Sound, Bool.and_eq_true, Bool.or_eq_true, decide_eq_true_eq] at hs
+  obtain ⟨⟨h1, h2⟩, h3⟩ := hs
+  obtain ⟨mk, fdo⟩ := sys
+  unfold makeTempFile
+  rcases alloc_cases w ⟨.tempName, 0⟩ with ha | ha <;> rw [ha]
+  · simp [h1, doTActions]
+  · cases mk <;> cases fdo <;> rcases h3 with h3 | h3 <;>
+      simp [h2, h3, doTActions, doTAction, World.free]
+
+theorem decrunchCommand_spec (cfg : TempCfg) (hs : cfg.Sound = true) (sys : HelperSys) (x : Hio) (w : World)
+    (L : List Tok) (hx : x.type = .file ∧ x.noclose = false ∧ x.h = ⟨.hio, 0⟩) (hl : w.live = x.h :: L)
+    (hfd : 1 ≤ w.openFds) :
+    let r := decrunchCommand cfg sys x w
+    let wf := unlinkTempFile r.2.2.1 (hioClose {} r.2.1 r.2.2.2)
+    wf.live = L ∧ wf.tempFiles = w.tempFiles ∧ wf.openFds = w.openFds - 1 ∧ wf.bad = w.bad := by
+  obtain ⟨h, ty, nc, st, inn, bf⟩ := x
+  obtain ⟨rfl, rfl, rfl⟩ := hx
+  simp only at hl
+  unfold decrunchCommand
+  have hm := makeTempFile_spec cfg hs sys.toTempSys w
+  generalize makeTempFile cfg sys.toTempSys w = r at hm
+  obtain ⟨ok, name, w3⟩ := r
+  obtain ⟨hb, hc, hm⟩ := hm
+  simp only at hb hc hm
+  rcases hm with ⟨rfl, rfl, hl3, ht, hf⟩ | ⟨rfl, rfl, hl3, ht, hf⟩
+  · cases hex : sys.execOk <;> cases hsk : sys.seekOk <;> cases hsz : sys.sizeOk <;>
+      simp [hioReopenFile, hioCloseInternal, World.fcloseOwned, hioClose, unlinkTempFile, World.free, hl, hl3, ht, hf, hb,
+        List.erase_cons] <;> omega
+  · simp [hioClose, hioCloseInternal, World.fcloseOwned, unlinkTempFile, World.free, hl, hl3, ht, hf, hb]
+
+theorem tempfile_atomic (cfg : TempCfg) (hs : cfg.Sound = true) (sys : HelperSys) (loadRc : Int) (w : World) :
+    let r := pathOpWithHelper cfg sys loadRc w
+    r.2.tempFiles = w.tempFiles ∧ r.2.openFds = w.openFds ∧ r.2.bad = w.bad ∧ r.2.live = w.live := by
+  unfold pathOpWithHelper hioOpenPath
+  rcases alloc_cases w ⟨.hio, 0⟩ with ha | ha <;> rw [ha]
+  · simp
+  · simp only [Bool.not_true, Bool.false_eq_true, if_false, if_true]
+    have := decrunchCommand_spec cfg hs sys { h := ⟨.hio, 0⟩, type := .file, noclose := false, stream := .ownedFile }
+      { w with oracle := w.oracle.tail, nalloc := w.nalloc + 1, live := ⟨.hio, 0⟩ :: w.live, openFds := w.openFds + 1 }
+      w.live ⟨rfl, rfl, rfl⟩ rfl (by simp)
+    simp only at this
+    obtain ⟨a, b, c, d⟩ := this
+    exact ⟨b, by simpa using c, d, a⟩
+
+
+theorem freeAll_append (a b : List (Option Tok)) (w : World) : freeAll (a ++ b) w = freeAll b (freeAll a w) := by
+  induction a generalizing w with
+  | nil => rfl
+  | cons p ps ih => simp [freeAll, ih]
+
+theorem free_eq_freeAll (p : Option Tok) (w : World) : w.free p = freeAll [p] w := rfl
+
+theorem ptrs_append (a b : List (Option Tok)) : ptrs (a ++ b) = ptrs a ++ ptrs b := by
+  simp [ptrs, List.filterMap_append]
+
+/-- release order of one pointer table -/
+def tableOrder (t : Table) : List (Option Tok) := if t.ptr.isSome then t.entries ++ [t.ptr] else []
+
+theorem freeTable_eq (t : Table) (w : World) : freeTable t w = freeAll (tableOrder t) w := by
+  unfold freeTable tableOrder
+  cases h : t.ptr with
+  | none => simp [freeAll]
+  | some p => simp [freeAll_append, freeAll]
+
+def insOrder : List (Option Tok) → List (Option Tok) → List (Option Tok)
+  | s :: ss, e :: es => s :: e :: insOrder ss es
+  | s :: ss, [] => s :: insOrder ss []
+  | [], e :: es => e :: insOrder [] es
+  | [], [] => []
+
+theorem freeIns_eq (ss es : List (Option Tok)) (w : World) : freeIns ss es w = freeAll (insOrder ss es) w := by
+  induction ss generalizing es w with
+  | nil =>
+    induction es generalizing w with
+    | nil => simp [freeIns, insOrder, freeAll]
+    | cons e es ih => simp [freeIns, insOrder, freeAll, ih]
+  | cons s ss ih =>
+    cases es with
+    | nil => simp [freeIns, insOrder, freeAll, ih]
+    | cons e es => simp [freeIns, insOrder, freeAll, ih]
+
+@[simp] theorem ptrs_nil : ptrs [] = [] := rfl
+@[simp] theorem ptrs_cons_none (l : List (Option Tok)) : ptrs (none :: l) = ptrs l := rfl
+@[simp] theorem ptrs_cons_some (t : Tok) (l : List (Option Tok)) : ptrs (some t :: l) = t :: ptrs l := rfl
+
+theorem count_ptrs_insOrder (ss es : List (Option Tok)) (u : Tok) :
+    (ptrs (insOrder ss es)).count u = (ptrs ss).count u + (ptrs es).count u := by
+  induction ss generalizing es with
+  | nil =>
+    induction es with
+    | nil => simp [insOrder]
+    | cons e es ih =>
+      cases e <;> simp_all [insOrder, List.count_cons] <;> omega
+  | cons s ss ih =>
+    cases es with
+    | nil =>
+      have := ih []
+      cases s <;> simp_all [insOrder, List.count_cons] <;> omega
+    | cons e es =>
+      have := ih es
+      cases s <;> cases e <;> simp_all [insOrder, List.count_cons] <;> omega
+
+def extraOrder : ModExtra → List (Option Tok)
+  | .none => []
+  | .flat p => [some p]
+  | .med p v wv => tableOrder v ++ tableOrder wv ++ [some p]
+
+theorem releaseModExtra_eq (e : ModExtra) (w : World) : releaseModExtra e w = freeAll (extraOrder e) w := by
+  cases e with
+  | none => rfl
+  | flat p => rfl
+  | med p v wv => simp [releaseModExtra, extraOrder, freeTable_eq, freeAll_append, freeAll]
+
+/-- release order of the module part of xmp_release_module -/
+def moduleOrder (m : Module) : List (Option Tok) :=
+  extraOrder m.extra ++ tableOrder m.xxt ++ tableOrder m.xxp
+    ++ (if m.xxi.isSome then insOrder m.subs m.insExtras ++ [m.xxi] else [])
+    ++ tableOrder m.xxs ++ [m.xtra, m.midi] ++ tableOrder m.scanCnt ++ [m.scan, m.comment, m.dirname, m.basename]
+
+/-- release order of xmp_end_player -/
+def playerOrder (p : Player) : List (Option Tok) :=
+  p.chanExtra ++ p.paula ++ [p.voiceArray, p.virtChannel, p.xcData, p.flowLoop, p.buffer, p.buf32]
+
+theorem endPlayer_eq (c : Ctx) (w : World) (hp : c.state = .playing) (hv : c.player.voiceArray.isSome ∨ c.player.paula = []) :
+    endPlayer c w = ({ state := .loaded, player := { maxvoc := 0, virtChannels := 0 } }, freeAll (playerOrder c.player) w) := by
+  unfold endPlayer
+  have hne : ¬ (c.player.voiceArray = none ∧ ¬ c.player.paula = []) := by
+    rcases hv with h | h
+    · cases hva : c.player.voiceArray <;> simp_all
+    · simp [h]
+  simp [hp, virtOff, mixerOff, playerOrder, freeAll_append, freeAll, hne]
+
+theorem releaseModule_world (c : MCtx) (w : World) :
+    (releaseModule c w).2 = freeAll (moduleOrder c.module) (endPlayer c.toCtx w).2 := by
+  unfold releaseModule moduleOrder
+  cases hx : c.module.xxi <;>
+    simp [releaseModExtra_eq, freeTable_eq, freeIns_eq, freeAll_append, freeAll, hx]
+
+
+
+theorem ptrs_all_none (l : List (Option Tok)) (h : l.all Option.isNone = true) : ptrs l = [] := by
+  induction l with
+  | nil => rfl
+  | cons a l ih =>
+    cases a with
+    | none =>
+      simp only [List.all_cons, Option.isNone_none, Bool.true_and] at h
+      simpa using ih h
+    | some t => simp at h
+
+theorem count_tableOrder (t : Table) (h : t.wf = true) (u : Tok) :
+    (ptrs (tableOrder t)).count u = t.toks.count u := by
+  unfold tableOrder Table.toks
+  cases hp : t.ptr with
+  | none =>
+    have : t.entries.all Option.isNone = true := by simpa [Table.wf, hp] using h
+    simp [ptrs_all_none _ this]
+  | some p =>
+    simp [ptrs_append, List.count_append, List.count_cons]
+
+theorem count_extraOrder (e : ModExtra) (h : e.wf = true) (u : Tok) :
+    (ptrs (extraOrder e)).count u = e.toks.count u := by
+  cases e with
+  | none => simp [extraOrder, ModExtra.toks]
+  | flat p => simp [extraOrder, ModExtra.toks]
+  | med p v wv =>
+    simp only [ModExtra.wf, Bool.and_eq_true] at h
+    have h1 := count_tableOrder v h.1 u
+    have h2 := count_tableOrder wv h.2 u
+    simp only [extraOrder, ModExtra.toks, ptrs_append, List.count_append, List.count_cons, h1, h2, ptrs_cons_some, ptrs_nil]
+    simp
+
+theorem count_playerOrder (p : Player) (u : Tok) : (ptrs (playerOrder p)).count u = p.toks.count u := by
+  unfold playerOrder Player.toks
+  simp only [ptrs_append, List.count_append]
+  cases p.voiceArray <;> cases p.virtChannel <;> cases p.xcData <;> cases p.flowLoop <;> cases p.buffer <;> cases p.buf32 <;>
+    simp [List.count_cons] <;> omega
+
+theorem count_moduleOrder (m : Module) (h : m.wf = true) (u : Tok) :
+    (ptrs (moduleOrder m)).count u = m.toks.count u := by
+  simp only [Module.wf, Bool.and_eq_true, Bool.or_eq_true] at h
+  obtain ⟨⟨⟨⟨⟨h1, h2⟩, h3⟩, h4⟩, h5⟩, h6⟩ := h
+  have e1 := count_tableOrder m.xxt h1 u
+  have e2 := count_tableOrder m.xxp h2 u
+  have e3 := count_tableOrder m.xxs h3 u
+  have e4 := count_tableOrder m.scanCnt h4 u
+  have e5 := count_extraOrder m.extra h5 u
+  have e6 := count_ptrs_insOrder m.subs m.insExtras u
+  unfold moduleOrder Module.toks
+  simp only [ptrs_append, List.count_append, e1, e2, e3, e4, e5]
+  cases hx : m.xxi with
+  | none =>
+    have hall : (m.subs ++ m.insExtras).all Option.isNone = true := by simpa [hx] using h6
+    have := ptrs_all_none _ hall
+    rw [ptrs_append] at this
+    have hs : ptrs m.subs = [] := List.append_eq_nil_iff.mp this |>.1
+    have he : ptrs m.insExtras = [] := List.append_eq_nil_iff.mp this |>.2
+    cases m.xtra <;> cases m.midi <;> cases m.scan <;> cases m.comment <;> cases m.dirname <;> cases m.basename <;>
+      simp [List.count_cons, hs, he] <;> omega
+  | some x =>
+    cases m.xtra <;> cases m.midi <;> cases m.scan <;> cases m.comment <;> cases m.dirname <;> cases m.basename <;>
+      simp [ptrs_append, List.count_append, e6, List.count_cons] <;> omega
+
+
+
+theorem release_total (c : MCtx) (w : World) (hwf : c.module.wf = true)
+    (hpl : c.state = .playing → (c.player.voiceArray.isSome ∨ c.player.paula = []))
+    (hnp : c.state ≠ .playing → c.player.toks = [])
+    (hown : Sub c.toks w.live) :
+    let r := releaseModule c w
+    r.2.bad = w.bad ∧ (∀ u, r.2.live.count u + c.toks.count u = w.live.count u)
+      ∧ r.1.module = {} ∧ r.1.state = .unloaded ∧ r.1.player.toks = [] ∧ SameEnv w r.2 := by
+  intro r
+  have hr2 : r.2 = freeAll (moduleOrder c.module) (endPlayer c.toCtx w).2 := releaseModule_world c w
+  have hr1 : r.1 = { state := .unloaded, player := (endPlayer c.toCtx w).1.player, module := {} } := rfl
+  by_cases hp : c.state = .playing
+  · have he := endPlayer_eq c.toCtx w hp (hpl hp)
+    rw [he] at hr2 hr1
+    simp only at hr2 hr1
+    rw [← freeAll_append] at hr2
+    have hcount : ∀ u, (ptrs (playerOrder c.player ++ moduleOrder c.module)).count u = c.toks.count u := by
+      intro u
+      rw [ptrs_append, List.count_append, count_playerOrder, count_moduleOrder _ hwf]
+      simp [MCtx.toks, List.count_append]
+    have hsub : Sub (ptrs (playerOrder c.player ++ moduleOrder c.module)) w.live := by
+      intro u; rw [hcount u]; exact hown u
+    obtain ⟨a, _, _, d, e⟩ := freeAll_spec _ w hsub
+    rw [hr2, hr1]
+    refine ⟨a, ?_, rfl, rfl, ?_, d⟩
+    · intro u; rw [← hcount u]; exact e u
+    · simp [Player.toks]
+  · have he : endPlayer c.toCtx w = (c.toCtx, w) := by simp [endPlayer, hp]
+    rw [he] at hr2 hr1
+    simp only at hr2 hr1
+    have hpt := hnp hp
+    have hcount : ∀ u, (ptrs (moduleOrder c.module)).count u = c.toks.count u := by
+      intro u
+      rw [count_moduleOrder _ hwf]
+      simp [MCtx.toks, hpt]
+    have hsub : Sub (ptrs (moduleOrder c.module)) w.live := by
+      intro u; rw [hcount u]; exact hown u
+    obtain ⟨a, _, _, d, e⟩ := freeAll_spec _ w hsub
+    rw [hr2, hr1]
+    refine ⟨a, ?_, rfl, rfl, hpt, d⟩
+    intro u; rw [← hcount u]; exact e u
+
+
 end Xmp.Resource
